@@ -53,7 +53,7 @@ for _f, _n in (("B1", 25), ("B1d", 15), ("B2", 20), ("B3", 5)):
 for _f, _n in (("Q1", 20), ("Q2", 12), ("Q3", 4), ("Q4", 2), ("Q5", 1), ("C1", 15), ("C2", 5)):
     reg(_f, getattr(cue, "rule_" + _f), _n)
 
-for _f, _n in (("I1", 10), ("I2", 6), ("I3", 3), ("I4", 5), ("I5", 6), ("I6", 60), ("I7", 1), ("I8", 1), ("I9", 1), ("I10", 1), ("I11", 4), ("I12", 6), ("O1", 6), ("R1", 1)):
+for _f, _n in (("I1", 10), ("I2", 6), ("I3", 3), ("I4", 5), ("I5", 6), ("I6", 60), ("I7", 1), ("I8", 1), ("I9", 1), ("I10", 1), ("I11", 4), ("I12", 6), ("I13", 1), ("O1", 6), ("R1", 1)):
     reg(_f, getattr(isolation, "rule_" + _f), _n)
 
 for _f, _n in (("F1", 3), ("F2", 3), ("F3", 3), ("F4", 2), ("F5", 10), ("F6", 15)):
@@ -172,7 +172,7 @@ PROPS = {
               "of its own - stream factories are not memoised (I9). A failure while realising a Roland sample is of a type the record loops swallow (I11); a present-but-empty context value is returned as it is (N12)."
               "" + NOT +
               "damage that still parses (a start sector pointing into another file's chain); equality of the other items' audio."),
-    "C15": _p(["S4p", "S9", "T1", "L1w", "I1", "I10", "I5", "I4", "P5", "S6", "L8c"],
+    "C15": _p(["S4p", "S9", "T1", "L1w", "I1", "I10", "I13", "I5", "I4", "P5", "S6", "L8c"],
               "Decides: a short sector read is detected on every returning path of SectorStream._read (S4e) and ends the data stream instead of aborting (S9); partition scan leaves its "
               "loop on the first unparsable header (T1-STREAM-PARSE exits); length prefixes wrap the streamed data (L1w); unreadable files are skipped without stopping the remaining ones "
               "(I1); whole-frame blocks (P5); the last CDDA track runs to the end of the file as it is (L8c). The AKAI file table and the volume body are read through the sector stream inside the handlers that turn a failed read into a skipped entry (I10)."
